@@ -1,1 +1,61 @@
-//! (to be filled in)
+//! fold(p, r, v): the documented dialect folding for printer options p and parser options r
+//! (DESIGN Appendix B). Nothing else folds.
+
+use crate::domains::{PO, PR};
+use crate::rv::RV;
+
+fn sym_nil(r: &PO) -> RV {
+    match r.nil {
+        0 => RV::sym("nil"),
+        1 => RV::Null,
+        _ => RV::Nil,
+    }
+}
+fn sym_t(r: &PO) -> RV {
+    if r.t == 0 {
+        RV::sym("t")
+    } else {
+        RV::Bool(true)
+    }
+}
+
+fn fold_bool(p: &PR, r: &PO, b: bool) -> RV {
+    if p.bool_ == 0 {
+        RV::Bool(b)
+    } else if b {
+        sym_t(r)
+    } else {
+        sym_nil(r)
+    }
+}
+
+pub fn fold(p: &PR, r: &PO, v: &RV) -> RV {
+    match v {
+        RV::Nil => match p.nil {
+            0 => sym_nil(r),      // printed as the symbol nil
+            1 => RV::Nil,         // #nil
+            2 => RV::Null,        // ()
+            _ => fold_bool(p, r, false), // printed as boolean false
+        },
+        RV::Bool(b) => fold_bool(p, r, *b),
+        RV::Bytes(b) if b.is_empty() && p.bytes == 2 => RV::str(""),
+        RV::Cons(a, d) => {
+            // iterative along the spine
+            let mut cars = vec![fold(p, r, a)];
+            let mut cur: &RV = d;
+            while let RV::Cons(a2, d2) = cur {
+                cars.push(fold(p, r, a2));
+                cur = d2;
+            }
+            let tail = fold(p, r, cur);
+            RV::append(cars, tail)
+        }
+        RV::Vector(xs) => RV::Vector(xs.iter().map(|x| fold(p, r, x)).collect()),
+        other => other.clone(),
+    }
+}
+
+/// Did anything fold?
+pub fn folds(p: &PR, r: &PO, v: &RV) -> bool {
+    fold(p, r, v) != *v
+}
